@@ -1,22 +1,23 @@
 import Proofs.TeamFit
 import Proofs.NoIdleBack
 /-!
-C08, backward mode, for unlimited teams: between the end of the team task and its deadline, every slot in which ALL members are
-working carries the task on every member or a booking on some member.
+C08, backward mode, for teams: between the end of the team task and its deadline, every slot in which ALL members are
+working carries the task on every member or a booking on some member, or a limit has no room there for the whole team.
 -/
 namespace SP
 
-/-- **along the backward walk of an unlimited team**: a visited slot in which all members are working ends up carrying the task
-    on every member, or some member carries an entry there -/
+/-- **along the backward walk of a team**: a visited slot in which all members are working ends up carrying the task
+    on every member, or some member carries an entry there, or a limit has no room for the whole team -/
 theorem walkLoopB_team_no_idle (e : Env) (wf : WF e) (t : Nat) (sel : List Nat) (fuel : Nat) (σ : St) (w : Walk)
     (vis : List Int) (hinv : Inv e σ) (hs : Solid e σ) (hlf : (e.taskD t).leaf = true) (hw : WalkOk e t w) (hin : WalkIn e w)
     (ha : (e.taskD t).hasAlloc = true) (hm : (e.taskD t).milestone = false)
     (hsel : selectedOf e σ t w = sel) (hteam : isTeam e t sel = true) (hnd : sel.Nodup) (hpos : 0 < (e.taskD t).effort)
     (hts : TS σ t sel false w vis)
-    (hleaf : ∀ m ∈ sel, (e.resD m).leaf = true) (hrl : ∀ m ∈ sel, resLimitIds e m = []) (htl : taskLimitIds e t = []) :
+    (hleaf : ∀ m ∈ sel, (e.resD m).leaf = true) :
     ∀ p ∈ walkVisitsB e t fuel σ w, AllWorking e sel p.2.cur →
       (∀ m ∈ sel, usageOf ((walkLoop e t false fuel σ w).1.led.get m p.2.cur).usage t ≠ none) ∨
-      ∃ m ∈ sel, Has m p.2.cur (walkLoop e t false fuel σ w).1 := by
+      (∃ m ∈ sel, Has m p.2.cur (walkLoop e t false fuel σ w).1) ∨
+      TeamTight e (walkLoop e t false fuel σ w).1 t sel p.2.cur := by
   induction fuel generalizing σ w vis with
   | zero => intro p hp; simp [walkVisitsB] at hp
   | succ f ih =>
@@ -36,15 +37,19 @@ theorem walkLoopB_team_no_idle (e : Env) (wf : WF e) (t : Nat) (sel : List Nat) 
     -- what the slot of this visit holds right after `scheduleSlot`
     have hslot : AllWorking e sel w.cur →
         (∀ m ∈ sel, usageOf ((scheduleSlot e σ t w).1.led.get m w.cur).usage t ≠ none) ∨
-        ∃ m ∈ sel, Has m w.cur (scheduleSlot e σ t w).1 := by
+        (∃ m ∈ sel, Has m w.cur (scheduleSlot e σ t w).1) ∨ TeamTight e (scheduleSlot e σ t w).1 t sel w.cur := by
       intro hall
       rcases hcase with hnone | ⟨a, ha0, hent, hlast⟩
       · right
-        obtain ⟨m, hm', hr⟩ := bookResources_team_nobody_reason e wf σ t w sel hinv hs hin ha hsel hteam hnd hclean hleaf hrl htl hnone
-        rcases hr with hr | hr | hr
-        · rw [(hall m hm').1] at hr; exact Bool.noConfusion hr
-        · rw [(hall m hm').2] at hr; exact Bool.noConfusion hr
-        · exact ⟨m, hm', closed_scheduleSlot (has_closed e m w.cur) wf σ t w hinv hlf trivial hw hin hr⟩
+        rcases bookResources_team_nobody_reason e wf σ t w sel hinv hs hin ha hsel hteam hnd hclean hleaf hnone with ⟨m, hm', hr⟩ | htight
+        · left
+          rcases hr with hr | hr | hr
+          · rw [(hall m hm').1] at hr; exact Bool.noConfusion hr
+          · rw [(hall m hm').2] at hr; exact Bool.noConfusion hr
+          · exact ⟨m, hm', closed_scheduleSlot (has_closed e m w.cur) wf σ t w hinv hlf trivial hw hin hr⟩
+        · right
+          exact teamTight_closed_step (fun lid ro hr =>
+            closed_scheduleSlot (tight_closed e lid w.cur ro _) wf σ t w hinv hlf trivial hw hin hr) htight
       · left
         intro m hm'
         unfold scheduleSlot
@@ -92,14 +97,18 @@ theorem walkLoopB_team_no_idle (e : Env) (wf : WF e) (t : Nat) (sel : List Nat) 
         rcases List.mem_cons.mp hp with hp | hp
         · subst hp
           simp only [] at hall ⊢
-          rcases hslot hall with h1 | ⟨m, hm', h1⟩
+          rcases hslot hall with h1 | ⟨m, hm', h1⟩ | h1
           · left
             intro m hm'
             rw [walkLoop_after e t f _ _ m w.cur (by rw [hcur2]; omega)]
             exact h1 m hm'
-          · right
+          · right; left
             exact ⟨m, hm', closed_walkLoop (has_closed e m w.cur) wf t false f _ _ hsi.1 hlf trivial
               (walkOk_advance e t wf _ _ _ hw1) hin2 h1⟩
+          · right; right
+            exact teamTight_closed_step (fun lid ro hr =>
+              closed_walkLoop (tight_closed e lid w.cur ro _) wf t false f _ _ hsi.1 hlf trivial
+                (walkOk_advance e t wf _ _ _ hw1) hin2 hr) h1
         · exact ih (scheduleSlot e σ t w).1 (advance false w (scheduleSlot e σ t w).2.1) (w.cur :: vis) hsi.1 hss
             (walkOk_advance e t wf _ _ _ hw1) hin2 (selectedOf_some e _ t _ sel hsel') hts' p hp hall
     · have hc' : (scheduleSlot e σ t w).2.2 = false := by simpa using hc
@@ -109,12 +118,10 @@ theorem walkLoopB_team_no_idle (e : Env) (wf : WF e) (t : Nat) (sel : List Nat) 
       subst hp'
       exact hslot hall
 
-/-- a backward team task: several pairwise different unlimited leaf resources, no limits on the task -/
+/-- a backward team task: several pairwise different leaf resources (limits allowed) -/
 structure TeamUB (e : Env) (t : Nat) (sel : List Nat) : Prop where
   el : TeamAny e t sel
   rleaf : ∀ m ∈ sel, (e.resD m).leaf = true
-  rl : ∀ m ∈ sel, resLimitIds e m = []
-  tl : taskLimitIds e t = []
   mem : ∀ m ∈ sel, m ∈ (e.taskD t).alloc ++ (e.taskD t).alt
 
 /-- **one backward team task**: between any slot the team is booked in and the slot its walk started in, a slot in which all
@@ -125,7 +132,7 @@ theorem scheduleTaskB_team_no_idle_interval (e : Env) (wf : WF e) (σ : St) (t :
     ∀ L m0, m0 ∈ sel → usageOf ((scheduleTask e σ t).1.led.get m0 L).usage t ≠ none →
       ∀ i, L ≤ i → i ≤ (initCursor e σ t).1 → AllWorking e sel i →
         (∀ m ∈ sel, usageOf ((scheduleTask e σ t).1.led.get m i).usage t ≠ none) ∨
-        ∃ m ∈ sel, Has m i (scheduleTask e σ t).1 := by
+        (∃ m ∈ sel, Has m i (scheduleTask e σ t).1) ∨ TeamTight e (scheduleTask e σ t).1 t sel i := by
   have hpc : preStartCursor e σ t (initCursor e σ t).1 = (initCursor e σ t).1 := by
     unfold preStartCursor; simp [hel.el.alloc]
   have hpt : preStartT e σ t (initCursor e σ t).1 = σ.tst t := by
@@ -179,23 +186,17 @@ theorem scheduleTaskB_team_no_idle_interval (e : Env) (wf : WF e) (σ : St) (t :
         { cur := (initCursor e σ t).1, offset := (initCursor e σ t).2 })[((initCursor e σ t).1 - i).toNat]).2.cur = i := by
       rw [hjc]; omega
     have := walkLoopB_team_no_idle e wf t sel _ _ _ [] h0 hs0 hel.el.leaf hw hin hel.el.alloc hel.el.nomile
-      hsel0 hel.el.isTeam hel.el.nodup hel.el.effort hts hel.rleaf hel.rl hel.tl
+      hsel0 hel.el.isTeam hel.el.nodup hel.el.effort hts hel.rleaf
       _ (List.getElem_mem hj) (by rw [hcur]; exact hall)
     rw [hcur] at this
-    split
-    · rcases this with h1 | ⟨m, hm, h1⟩
-      · exact Or.inl h1
-      · exact Or.inr ⟨m, hm, h1⟩
-    · rcases this with h1 | ⟨m, hm, h1⟩
-      · exact Or.inl h1
-      · exact Or.inr ⟨m, hm, h1⟩
+    split <;> exact this
 
 /-! ### the pick loop -/
 
 def NoIdleBackAtT (e : Env) (σ0 σ : St) (t : Nat) (sel : List Nat) : Prop :=
   ∀ L m0, m0 ∈ sel → usageOf (σ.led.get m0 L).usage t ≠ none →
     ∀ i, L ≤ i → i ≤ e.idx (deadlineG e σ0 σ t) - 1 → AllWorking e sel i →
-      (∀ m ∈ sel, usageOf (σ.led.get m i).usage t ≠ none) ∨ ∃ m ∈ sel, Has m i σ
+      (∀ m ∈ sel, usageOf (σ.led.get m i).usage t ≠ none) ∨ (∃ m ∈ sel, Has m i σ) ∨ TeamTight e σ t sel i
 
 def DoneIdleBT (e : Env) (σ0 σ : St) : Prop :=
   ∀ t sel, TeamUB e t sel → (σ.tst t).done = true → (σ.tst t).forward = false →
@@ -254,9 +255,11 @@ theorem bIdleInvT_step (e : Env) (wf : WF e) (σ0 σ : St) (tasks : List Nat) (t
     rw [updateContainers_led] at hL
     by_cases hic : i ≤ (initCursor e σ t).1
     · have := scheduleTaskB_team_no_idle_interval e wf σ t sel h.inv h.solid hel hfw hnd0 hclean0 L m0 hm0 hL i hLi hic hall
-      rcases this with h1 | ⟨m, hm, h1⟩
+      rcases this with h1 | ⟨m, hm, h1⟩ | h1
       · left; intro m hm; rw [updateContainers_led]; exact h1 m hm
-      · right; exact ⟨m, hm, by unfold Has at h1 ⊢; rw [updateContainers_led]; exact h1⟩
+      · right; left; exact ⟨m, hm, by unfold Has at h1 ⊢; rw [updateContainers_led]; exact h1⟩
+      · right; right
+        exact teamTight_closed_step (fun lid ro hr => closed_updateContainers (tight_closed e lid i ro _) _ hr) h1
     · exfalso
       have := initCursor_back_gap e σ t m0 hfw hel.el.effort hel.el.alloc (hel.mem m0 hm0) i (by omega) hid
       rw [(hall m0 hm0).1] at this; exact Bool.noConfusion this
@@ -270,21 +273,25 @@ theorem bIdleInvT_step (e : Env) (wf : WF e) (σ0 σ : St) (tasks : List Nat) (t
     intro L m0 hm0 hL i hLi hid hall
     rw [deadlineG_congr e σ0 σ _ t (fun hns => (hsettled t (hst hns)).2)] at hid
     rw [updateContainers_led, scheduleTask_same e σ t0 t (Ne.symm heq) m0 L] at hL
-    rcases hidle L m0 hm0 hL i hLi hid hall with h1 | ⟨m, hm, h1⟩
+    rcases hidle L m0 hm0 hL i hLi hid hall with h1 | ⟨m, hm, h1⟩ | h1
     · left
       intro m hm
       rw [updateContainers_led, scheduleTask_same e σ t0 t (Ne.symm heq) m i]
       exact h1 m hm
-    · right
+    · right; left
       refine ⟨m, hm, ?_⟩
       have h2 := closed_scheduleTask (has_closed e m i) wf σ t0 h.inv hlf0 trivial h1
       unfold Has at h2 ⊢
       rw [updateContainers_led]; exact h2
+    · right; right
+      exact teamTight_closed_step (fun lid ro hr =>
+        closed_updateContainers (tight_closed e lid i ro _) _
+          (closed_scheduleTask (tight_closed e lid i ro _) wf σ t0 h.inv hlf0 trivial hr)) h1
 
 theorem DoneIdleBT.of_eq {e : Env} {σ0 σ σ' : St} (hl : σ'.led = σ.led) (ht : σ'.ts = σ.ts) (hc : σ'.cnt = σ.cnt)
     (h : DoneIdleBT e σ0 σ) : DoneIdleBT e σ0 σ' := by
-  unfold DoneIdleBT NoIdleBackAtT Settled deadlineG latestEnd Has St.tst at *
-  rw [hl, ht]; exact h
+  unfold DoneIdleBT NoIdleBackAtT Settled deadlineG latestEnd Has TeamTight Tight St.tst at *
+  rw [hl, ht, hc]; exact h
 
 theorem pickLoop_doneIdleBT (e : Env) (wf : WF e) (σ0 : St) (fuel : Nat) (tasks failed : List Nat) (σ : St)
     (h : BIdleInvT e σ0 σ tasks) : DoneIdleBT e σ0 (pickLoop e fuel tasks failed σ).1 := by
@@ -304,10 +311,11 @@ theorem pickLoop_doneIdleBT (e : Env) (wf : WF e) (σ0 : St) (fuel : Nat) (tasks
         · exact DoneIdleBT.of_eq (σ := σ) rfl rfl rfl h.okT
         · exact h.okT
 
-/-- **C08, backward mode, unlimited teams, end to end.**  After scheduling any well-formed project: every completed backward
-    (ALAP) team task — several pairwise different unlimited leaf resources, no limits on the task — ends by its deadline, and
+/-- **C08, backward mode, teams, end to end.**  After scheduling any well-formed project: every completed backward
+    (ALAP) team task — several pairwise different leaf resources, limits allowed — ends by its deadline, and
     between any slot `L` in which it is booked and the last slot before the deadline, every slot in which ALL its members are on
-    shift and not on leave carries the task on every member, or a booking on some member. -/
+    shift and not on leave carries the task on every member, or a booking on some member, or some limit of a member or of the
+    task has no room left there for the whole team (`TeamTight`). -/
 theorem runScenario_doneIdleBT (e : Env) (wf : WF e) (tr : Tree e) : DoneIdleBT e (loopStart e) (runScenario e) := by
   have hdf : DoneFalse (prepare e (initState e)) := prepare_doneFalse e _ (doneFalse_init e)
   have hprep : Inv e (prepare e (initState e)) := prepare_inv e _ (inv_init e wf)
@@ -356,8 +364,10 @@ theorem runScenario_doneIdleBT (e : Env) (wf : WF e) (tr : Tree e) : DoneIdleBT 
     rw [deadlineG_congr e (loopStart e) (scheduleScenario e (prepare e (initState e))) _ t
       (fun _ => ⟨fun dp _ _ => (hsd dp.target).1, fun s _ => (hsd s).1⟩)] at hid
     rw [finishScenario_led] at hL
-    rcases hidle L m0 hm0 hL i hLi hid hall with h1 | ⟨m, hm, h1⟩
+    rcases hidle L m0 hm0 hL i hLi hid hall with h1 | ⟨m, hm, h1⟩ | h1
     · left; intro m hm; rw [finishScenario_led]; exact h1 m hm
-    · right; exact ⟨m, hm, by unfold Has at h1 ⊢; rw [finishScenario_led]; exact h1⟩
+    · right; left; exact ⟨m, hm, by unfold Has at h1 ⊢; rw [finishScenario_led]; exact h1⟩
+    · right; right
+      exact teamTight_closed_step (fun lid ro hr => closed_finishScenario (tight_closed e lid i ro _) _ hr) h1
 
 end SP
